@@ -19,21 +19,21 @@ def InClass (o : Opts) (it : Item) : Prop :=
   (o.ignored = true ∧ it.info.ignored = true) ∨
   (o.unknown = true ∧ it.info.ignored = false)
 
-variable {fmt : Fmt} {o : Opts} {f : Forest} {it : Item}
+variable {keep : Item → Bool} {fmt : Fmt} {o : Opts} {f : Forest} {it : Item}
 
 /-- every path handed to `delete_items` names an entry of the layout, and the
 flags the selection looked at are that entry's flags -/
-theorem selected_at (hw : f.wf = true) (h : it ∈ selected fmt o f) :
+theorem selected_at (hw : f.wf = true) (h : it ∈ selectedWith keep fmt o f) :
     f.get it.path = some (it.info, it.kids) :=
   get_of_mem_items hw (extras_sub (selected_sub h).1)
 
-/-- every selected path is unversioned, in a requested class, and not a
-directory that `ControlDir.open` accepts -/
-theorem deletables_subset (hw : f.wf = true) (h : it ∈ selected fmt o f) :
+/-- every selected path is unversioned, in a requested class, and passed the
+final filter -/
+theorem deletables_subset (hw : f.wf = true) (h : it ∈ selectedWith keep fmt o f) :
     f.get it.path = some (it.info, it.kids) ∧ it.info.versioned = false ∧ InClass o it ∧
-      ¬ (it.info.kind = .dir ∧ hasCtl it.kids = true) := by
+      keep it = true := by
   obtain ⟨he, hwant, hkeep⟩ := selected_sub h
-  refine ⟨selected_at hw h, extras_unversioned he, ?_, ?_⟩
+  refine ⟨selected_at hw h, extras_unversioned he, ?_, hkeep⟩
   · unfold wanted at hwant
     unfold InClass
     by_cases hd : (o.detritus && isDetritus (joinPath it.path)) = true
@@ -42,12 +42,10 @@ theorem deletables_subset (hw : f.wf = true) (h : it ∈ selected fmt o f) :
       by_cases hi : it.info.ignored = true
       · rw [if_pos hi] at hwant; right; left; exact ⟨hwant, hi⟩
       · rw [if_neg hi] at hwant; right; right; exact ⟨hwant, by simpa using hi⟩
-  · intro ⟨h1, h2⟩
-    simp [keepNested, h1, h2] at hkeep
 
 /-- never a versioned path, never a directory containing a versioned path:
 nothing at or below a selected path is versioned -/
-theorem never_versioned (hw : f.wf = true) (hc : f.unvClosed = true) (h : it ∈ selected fmt o f)
+theorem never_versioned (hw : f.wf = true) (hc : f.unvClosed = true) (h : it ∈ selectedWith keep fmt o f)
     {q : Path} {i : Info} {k : Forest} (hq : it.path <+: q) (hg : f.get q = some (i, k)) :
     i.versioned = false := by
   obtain ⟨r, rfl⟩ := hq
@@ -64,16 +62,16 @@ theorem never_versioned (hw : f.wf = true) (hc : f.unvClosed = true) (h : it ∈
     exact allUnv_get (unvClosed_items hc hit hv) hg
 
 /-- a dry run deletes nothing -/
-theorem dry_run_noop (h : o.dryRun = true) : cleanTree fmt o f = (f, false) :=
+theorem dry_run_noop (h : o.dryRun = true) : cleanTreeWith keep fmt o f = (f, false) :=
   cleanTree_noop (Or.inl h)
 
 /-- a declined prompt deletes nothing -/
-theorem declined_noop (h : o.prompt = some false) : cleanTree fmt o f = (f, false) :=
+theorem declined_noop (h : o.prompt = some false) : cleanTreeWith keep fmt o f = (f, false) :=
   cleanTree_noop (Or.inr h)
 
 /-- everything selected is inside the tree: a non-empty relative path of the
 layout whose components are proper names (no `..`, no `/`) -/
-theorem inside_tree (hw : f.wf = true) (h : it ∈ selected fmt o f) :
+theorem inside_tree (hw : f.wf = true) (h : it ∈ selectedWith keep fmt o f) :
     it.path ≠ [] ∧ it.path ∈ f.paths ∧
       ∀ c ∈ it.path, c ≠ "" ∧ c ≠ "." ∧ c ≠ ".." ∧ '/' ∉ c.toList := by
   have hm := selected_path_mem h
@@ -91,34 +89,35 @@ theorem extras_antichain (hw : f.wf = true) {a b : Item} (ha : a ∈ extras fmt 
 /-- exact effect of a real run: no error escapes, and a path survives iff no
 selected path is a prefix of it -/
 theorem clean_exact (hw : f.wf = true) (hd : o.dryRun = false) (hp : o.prompt ≠ some false) :
-    (cleanTree fmt o f).2 = false ∧
-      ∀ q, q ∈ (cleanTree fmt o f).1.paths ↔
-        (q ∈ f.paths ∧ ∀ s ∈ selected fmt o f, ¬ s.path <+: q) :=
-  ⟨(cleanTree_spec hw hd hp).1, (cleanTree_spec hw hd hp).2.2⟩
+    (cleanTreeWith keep fmt o f).2 = false ∧
+      ∀ q, q ∈ (cleanTreeWith keep fmt o f).1.paths ↔
+        (q ∈ f.paths ∧ ∀ s ∈ selectedWith keep fmt o f, ¬ s.path <+: q) :=
+  ⟨(cleanTree_spec (keep := keep) hw hd hp).1, (cleanTree_spec (keep := keep) hw hd hp).2.2⟩
 
 /-- for all options: no error, nothing is created, and whatever disappears lies
 at or below a selected path -/
 theorem clean_only_selected (hw : f.wf = true) :
-    (cleanTree fmt o f).2 = false ∧ (∀ q ∈ (cleanTree fmt o f).1.paths, q ∈ f.paths) ∧
-      ∀ q ∈ f.paths, q ∉ (cleanTree fmt o f).1.paths → ∃ s ∈ selected fmt o f, s.path <+: q := by
+    (cleanTreeWith keep fmt o f).2 = false ∧ (∀ q ∈ (cleanTreeWith keep fmt o f).1.paths, q ∈ f.paths) ∧
+      ∀ q ∈ f.paths, q ∉ (cleanTreeWith keep fmt o f).1.paths → ∃ s ∈ selectedWith keep fmt o f, s.path <+: q := by
   by_cases hd : o.dryRun = true
   · rw [cleanTree_noop (Or.inl hd)]
     exact ⟨rfl, fun _ h => h, fun _ h h' => absurd h h'⟩
   · by_cases hp : o.prompt = some false
     · rw [cleanTree_noop (Or.inr hp)]
       exact ⟨rfl, fun _ h => h, fun _ h h' => absurd h h'⟩
-    · obtain ⟨h1, _, h3⟩ := cleanTree_spec (fmt := fmt) hw (by simpa using hd) hp
+    · obtain ⟨h1, _, h3⟩ := cleanTree_spec (keep := keep) (fmt := fmt) hw (by simpa using hd) hp
       refine ⟨h1, fun q hq => ((h3 q).mp hq).1, ?_⟩
       intro q hq hnq
       apply Classical.byContradiction
       intro hne
       exact hnq ((h3 q).mpr ⟨hq, fun s hs hpre => hne ⟨s, hs, hpre⟩⟩)
 
-/-- bzr trees: a nested branch directly inside a versioned directory (so that
-`extras()` yields it) is kept with everything below it -/
-theorem nested_branch_top_level_kept (hw : f.wf = true) (h : it ∈ extras .bzr f)
-    (hd : it.info.kind = .dir) (hc : hasCtl it.kids = true) {q : Path} (hq : it.path <+: q)
-    (hm : q ∈ f.paths) : q ∈ (cleanTree .bzr o f).1.paths := by
+/-- a candidate of `extras()` that the final filter rejects is kept with
+everything below it (the candidates are pairwise unrelated, so no other
+candidate can take it along) -/
+theorem rejected_candidate_kept (hw : f.wf = true) (h : it ∈ extras fmt f) (hk : keep it = false)
+    {q : Path} (hq : it.path <+: q) (hm : q ∈ f.paths) :
+    q ∈ (cleanTreeWith keep fmt o f).1.paths := by
   apply survives hw hm
   intro s hs hpre
   have hse := (selected_sub hs).1
@@ -128,13 +127,25 @@ theorem nested_branch_top_level_kept (hw : f.wf = true) (h : it ∈ extras .bzr 
     · exact (extras_antichain hw h hse h').symm
   subst this
   have := (selected_sub hs).2.2
-  simp [keepNested, hd, hc] at this
+  rw [hk] at this
+  exact absurd this (by simp)
+
+/-- bzr trees: a nested branch directly inside a versioned directory (so that
+`extras()` yields it) is kept with everything below it — by the filter as
+found and by the proposed repair -/
+theorem nested_branch_top_level_kept (flt : Filter) (hw : f.wf = true) (h : it ∈ extras .bzr f)
+    (hd : it.info.kind = .dir) (hc : hasCtl it.kids = true) {q : Path} (hq : it.path <+: q)
+    (hm : q ∈ f.paths) : q ∈ (cleanTreeWith (keepOf flt f) .bzr o f).1.paths := by
+  apply rejected_candidate_kept hw h ?_ hq hm
+  cases flt with
+  | asFound => simp [keepOf, keepNested, hd, hc]
+  | fixed => simp [keepOf, keepFixed, hd, hasCtl_containsCtlName hc]
 
 /-- git trees: a directory holding a `.git` entry (nested git repository,
 submodule, worktree link) is kept with everything below it -/
 theorem git_nested_git_kept (hw : f.wf = true) {d : Path} {i : Info} {k : Forest}
     (hg : f.get d = some (i, k)) (hd : i.kind = .dir) (hc : k.hasName ".git" = true)
-    {q : Path} (hq : d <+: q) (hm : q ∈ f.paths) : q ∈ (cleanTree .git o f).1.paths := by
+    {q : Path} (hq : d <+: q) (hm : q ∈ f.paths) : q ∈ (cleanTreeWith keep .git o f).1.paths := by
   apply survives hw hm
   intro s hs hpre
   have hse := (selected_sub hs).1
